@@ -1,5 +1,5 @@
 import PyecoreModel.Lemmas.JsonDoc
-import PyecoreModel.Lemmas.XmiDocRefs
+import PyecoreModel.Lemmas.XmiDocIds
 /-! JSON documents: references, document-level round trip (C09). -/
 namespace JDoc
 open XDoc Xmi
@@ -54,30 +54,6 @@ theorem mapTL_comp {ρ σ τ : Type} (g : ρ → σ) (h : σ → τ) : (l : List
   | k :: t => by simp only [mapTL, mapT_comp g h k, mapTL_comp g h t]
 end
 
-mutual
-theorem AllRefs_mono {ρ : Type} (P Q : ρ → Prop) (hPQ : ∀ r, P r → Q r) : (n : SNode ρ) → AllRefs P n → AllRefs Q n
-  | .mk via cls uuid slots kids, h => by
-    cases h with
-    | mk _ _ _ _ _ hs hk =>
-      refine AllRefs.mk _ _ _ _ _ ?_ (AllRefsL_mono P Q hPQ kids hk)
-      intro e he
-      have := hs e he
-      cases hv : e.2 with
-      | ref1 t => rw [hv] at this; exact hPQ t this
-      | refN ts => rw [hv] at this; intro t ht; exact hPQ t (this t ht)
-      | none => trivial
-      | attr1 _ => trivial
-      | attrN _ => trivial
-      | kids => trivial
-theorem AllRefsL_mono {ρ : Type} (P Q : ρ → Prop) (hPQ : ∀ r, P r → Q r) :
-    (l : List (SNode ρ)) → (∀ k ∈ l, AllRefs P k) → ∀ k ∈ l, AllRefs Q k
-  | [], _ => by simp
-  | a :: t, h => by
-    intro k hk
-    rcases List.mem_cons.mp hk with he | hk
-    · rw [he]; exact AllRefs_mono P Q hPQ a (h a (by simp))
-    · exact AllRefsL_mono P Q hPQ t (fun x hx => h x (by simp [hx])) k hk
-end
 
 /-- the reference written for a path: the class of the target and the token -/
 def jref (mm : MMX) (o : Opts) (render : Path → Str) (roots : List (SNode Path)) (p : Path) : JRef :=
@@ -172,5 +148,57 @@ theorem jdoc_roundtrip_fragment (mm : MMX) (o : Opts) (hmm : MMJ mm) (single : B
     | some _ =>
       have := (List.getElem?_eq_some_iff.mp hr0).1
       omega
+
+end JDoc
+
+namespace JDoc
+open XDoc Xmi
+
+/-- **Document round trip, JSON, uuid addressing.** -/
+theorem jdoc_roundtrip_uuid (mm : MMX) (o : Opts) (hmm : MMJ mm) (render : Path → Str) (parse : Str → Option Path)
+    (roots : List (SNode Path))
+    (hu : o.uuid = true) (hid : ∀ c, ∀ fi ∈ mm.feats c, fi.isId = false)
+    (hwf : ∀ r ∈ roots, WFG mm (fun _ => True) r)
+    (hrefs : ∀ r ∈ roots, AllRefs (fun p => ∃ n, (p, n) ∈ allNodes mm roots) r)
+    (htok : ∀ q m, (q, m) ∈ allNodes mm roots → UuidTok m.uuid)
+    (hdist : ∀ q m q' m', (q, m) ∈ allNodes mm roots → (q', m') ∈ allNodes mm roots → m.uuid = m'.uuid → q = q') :
+    (jEncodeDoc mm o render roots).bind (jDecodeDoc mm o parse) = some (stripUuidL (roots.map (eff mm o true))) := by
+  apply jdoc_roundtrip mm o hmm render parse roots hwf
+  · intro r hr
+    apply AllRefs_mono _ _ _ r (hrefs r hr)
+    rintro p ⟨n, hn⟩
+    obtain ⟨r0, hr0, hc⟩ := (allNodesV_iff mm roots p n).mp ((allNodes_V_of_WFG mm hmm.toMMOK roots hwf p n).mp hn)
+    have hf := CF_follow mm r0 p.segs n hc (hwf r0 (List.mem_of_getElem? hr0))
+    unfold nodeAt
+    rw [hr0]; simp [hf]
+  · intro r hr
+    apply AllRefs_mono _ _ _ r (hrefs r hr)
+    rintro p ⟨n, hn⟩
+    rw [tokenOf_uuid mm o hmm.toMMOK render roots hu hwf p n hn]
+    exact resolveTok_uuid mm o hmm.toMMOK roots (tokenOf mm o render roots) parse hu hid hwf htok hdist p n hn
+
+end JDoc
+
+namespace JDoc
+open XDoc Xmi
+
+/-- **Document round trip, JSON, every addressing mode.** -/
+theorem jdoc_roundtrip_addr (mm : MMX) (o : Opts) (hmm : MMJ mm) (hid : IdOK mm) (single : Bool) (roots : List (SNode Path))
+    (hsingle : single = true → roots.length = 1)
+    (hwf : ∀ r ∈ roots, WFG mm (fun _ => True) r)
+    (hrefs : ∀ r ∈ roots, AllRefs (Target mm single roots) r)
+    (huuid : o.uuid = true → ∀ q m, (q, m) ∈ allNodes mm roots → UuidTok m.uuid ∧ Word mm.ws m.uuid)
+    (hdist : ∀ q m q' m' k, (q, m) ∈ allNodes mm roots → (q', m') ∈ allNodes mm roots →
+      k ∈ keysOf mm o m → k ∈ keysOf mm o m' → q = q') :
+    (jEncodeDoc mm o (renderPath single) roots).bind (jDecodeDoc mm o parsePath)
+      = some (stripUuidL (roots.map (eff mm o true))) := by
+  have key := token_resolves mm o hmm.toMMOK hid single roots hsingle hwf huuid hdist
+  apply jdoc_roundtrip mm o hmm (renderPath single) parsePath roots hwf
+  · intro r hr
+    apply AllRefs_mono _ _ _ r (hrefs r hr)
+    rintro p ⟨⟨n, hn⟩, _, _⟩
+    rw [nodeAt_of_mem mm hmm.toMMOK roots hwf p n hn]; rfl
+  · intro r hr
+    exact AllRefs_mono _ _ (fun p hp => (key p hp).2) r (hrefs r hr)
 
 end JDoc
